@@ -1,14 +1,14 @@
 (* Pins: full statements of the C13b theorems; a weakened theorem no longer type-checks here.
    Generated once by tools/mkpins.py from Props/C13b.v and then committed: edit both or neither. *)
 From SV Require Import Lib.Base Gen.Consts.
+From SV Require Import Model.PollAt Proofs.PollAtProofs.
+From SV Require Import Model.Seq32 Model.Assembler Model.TcpBuf Model.TcpTypes Model.Tcp.
+From SV Require Import Proofs.TcpSendBase Proofs.TcpLiveBase Proofs.TcpLiveProofs Proofs.TcpLiveMore.
+From SV Require Import Proofs.TcpLiveProgress.
 From SV Require Import Lib.Base Gen.Consts Gen.WireFields Model.WireDns Model.Dns Proofs.WireDnsProofs Proofs.DnsProofs.
 From SV Require Import Lib.Base Gen.Consts Model.Dhcp Proofs.DhcpProofs.
 From SV Require Import Lib.Base Gen.Consts Model.Neighbor Model.Route Model.Meta Model.Nexthop.
-From SV Require Import Model.PollAt Proofs.PollAtProofs.
-From SV Require Import Model.Seq32 Model.Assembler Model.TcpBuf Model.TcpTypes Model.Tcp.
 From SV Require Import Proofs.NeighborProofs Proofs.RouteProofs Proofs.NexthopProofs Proofs.MetaProofs.
-From SV Require Import Proofs.TcpLiveProgress.
-From SV Require Import Proofs.TcpSendBase Proofs.TcpLiveBase Proofs.TcpLiveProofs Proofs.TcpLiveMore.
 From SV Require Import Props.C02 Props.C19 Props.C18 Props.C16.
 From SV Require Import Props.C13b.
 
@@ -55,6 +55,13 @@ Check (C13_C18_lease_bound : forall hw calls, Forall call_typed calls ->
     l = dhcp_lease_duration r (m_max_lease (snd (dhcp_run hw calls1))) /\
     e = t + l /\ dhcp_poll_at (fst (dhcp_run hw calls)) <= e).
 
+Check (C13_C18_expiry_deconfigures : forall s cfg ra rb rbg e mtu now xid emit s' res,
+  ds_state s = Renewing cfg ra rb rbg e -> e <= now ->
+  dhcp_dispatch mtu now xid emit s = Ok (s', res) ->
+  (exists ra', ds_state s' = Discovering ra') /\
+  snd (dhcp_poll s') = Some EvDeconfigured /\
+  (0 <= now -> (forall f, emit f = true) -> exists f, res = DrSent f /\ tx_message_type f = MtDiscover)).
+
 Check (C13_C18_solicit_when_due : forall s mtu now xid emit s' res,
   dhcp_unconfigured s -> retry_cfg_typed (ds_retry_config s) ->
   (match ds_state s with Requesting _ retry _ _ => 0 <= retry | _ => True end) ->
@@ -63,13 +70,6 @@ Check (C13_C18_solicit_when_due : forall s mtu now xid emit s' res,
   exists f, res = DrSent f /\ tx_client_ip f = 0 /\ tx_dst_addr f = ip_BROADCAST /\
     (tx_message_type f = MtDiscover \/ tx_message_type f = MtRequest) /\
     dhcp_unconfigured s' /\ dhcp_poll_at s' <= now + solicit_bound (ds_retry_config s)).
-
-Check (C13_C18_expiry_deconfigures : forall s cfg ra rb rbg e mtu now xid emit s' res,
-  ds_state s = Renewing cfg ra rb rbg e -> e <= now ->
-  dhcp_dispatch mtu now xid emit s = Ok (s', res) ->
-  (exists ra', ds_state s' = Discovering ra') /\
-  snd (dhcp_poll s') = Some EvDeconfigured /\
-  (0 <= now -> (forall f, emit f = true) -> exists f, res = DrSent f /\ tx_message_type f = MtDiscover)).
 
 Check (C13_C16_meta_backoff : forall t n now hn,
   fst (meta_egress_permitted (meta_neighbor_missing t n) now hn) = true ->
